@@ -72,6 +72,59 @@ struct VMBase
   }
 };
 
+// BackendOptions::check_printable_char as configured for the run (cfg printable_mode):
+//   0 the library default (' '..'~' and '\n' are printable, the rest becomes \xHH)
+//   1 a user callback that is stricter: additionally rejects 'q', 'Z' and '"' (characters that reach a message only through
+//     string / char / user-type values in the harness's call sites, never through literal text or number formatting)
+//   2 no callback: nothing is sanitised
+inline int g_printable_mode = 0;
+
+inline bool printable_ok(char c)
+{
+  bool const dflt = (c >= ' ' && c <= '~') || c == '\n';
+  if (g_printable_mode == 1)
+  {
+    return dflt && c != 'q' && c != 'Z' && c != '"';
+  }
+  return dflt;
+}
+
+inline std::string typed_sanitize(std::string const& s)
+{
+  if (g_printable_mode == 2)
+  {
+    return s;
+  }
+  bool any = false;
+  for (char c : s)
+  {
+    if (!printable_ok(c))
+    {
+      any = true;
+    }
+  }
+  if (!any)
+  {
+    return s;
+  }
+  static char const hex[] = "0123456789ABCDEF";
+  std::string o;
+  for (char c : s)
+  {
+    if (printable_ok(c))
+    {
+      o.push_back(c);
+    }
+    else
+    {
+      o += "\\x";
+      o.push_back(hex[(c >> 4) & 0xF]);
+      o.push_back(hex[c & 0xF]);
+    }
+  }
+  return o;
+}
+
 inline int64_t parse_id(std::string_view msg)
 {
   // messages produced by the harness start with "#<digits>#"
@@ -360,6 +413,15 @@ struct VM : VMBase
       Ev& e = this->record(EV_NOTIFIER);
       e.s = s;
     };
+    g_printable_mode = static_cast<int>(plan.get("printable_mode", 0));
+    if (g_printable_mode == 1)
+    {
+      bo.check_printable_char = [](char c) { return printable_ok(c); };
+    }
+    else if (g_printable_mode == 2)
+    {
+      bo.check_printable_char = {};
+    }
     return bo;
   }
 
